@@ -428,25 +428,36 @@ class SyncIterSource:
 
 class LazyAw:
     """An awaitable that is only made when the iterable of awaitables is asked for it, and kept by nobody (like the
-    coroutines of a generator expression): once awaited and dropped, its memory -- and its id() -- is free for the next."""
+    coroutines of a generator expression): once awaited and dropped, its memory -- and its id() -- is free for the next.
+    gen: a generator-based coroutine (types.coroutine) instead of an object with __await__: `await` takes those too,
+    although they are no instances of collections.abc.Awaitable.  All awaitables of one iterable are of one kind, so
+    that each is followed by one of its own size (which is what gets the memory of the one dropped before)."""
 
-    def __init__(self, rec, value):
-        self.rec, self.value = rec, value
+    def __init__(self, rec, value, gen=False):
+        self.rec, self.value, self.gen = rec, value, gen
 
     def make(self):
-        aw = Aw(self.rec, self.value)
-        self.rec.nlazy = getattr(self.rec, "nlazy", 0) + 1
-        if self.rec.nlazy % 2 == 0:
-            # every second one is a generator-based coroutine (types.coroutine): `await` takes it, although it is
-            # no instance of collections.abc.Awaitable
-            import types  # noqa: PLC0415
+        if not self.gen:
+            # Deliberately hand out an object that sits where an earlier (dead) one of this iterable sat, when the
+            # allocator will give that place away: same id(), different awaitable.  Candidates that landed elsewhere
+            # are held until the search is over, so that the allocator moves on to the freed place.
+            seen = self.rec.__dict__.setdefault("lazy_ids", set())
+            cand, extras = Aw(self.rec, self.value), []
+            while seen and id(cand) not in seen and len(extras) < 200:
+                extras.append(cand)
+                cand = Aw(self.rec, self.value)
+            if id(cand) not in seen and extras:
+                cand = extras[0]
+            seen.add(id(cand))
+            return cand
+        import types  # noqa: PLC0415
+        rec, value = self.rec, self.value
 
-            @types.coroutine
-            def gen_based():
-                return (yield from aw.__await__())
+        @types.coroutine
+        def gen_based():
+            return (yield from Aw(rec, value).__await__())
 
-            return gen_based()
-        return aw
+        return gen_based()
 
 
 class SeqSource:
